@@ -42,6 +42,7 @@ func runC26(c *eng.Ctx) {
 		return f != nil && f.Name() == field
 	}
 	nRem, nAcc, nNorm := 0, 0, 0
+	foldedNorm := map[*ssa.BasicBlock]bool{}
 	for _, fn := range fns {
 		if !strings.HasPrefix(eng.FuncName(fn), "(*multiplexing/ring.Buffer).") {
 			continue
@@ -71,6 +72,13 @@ func runC26(c *eng.Ctx) {
 			for _, st := range startStores {
 				if b, ok := st.Val.(*ssa.BinOp); ok && b.Op == token.ADD && isFieldLoad(b.X, "start") {
 					startAdds = append(startAdds, b.Y)
+				}
+				// folded form: start = (start + k) % size
+				if b, ok := st.Val.(*ssa.BinOp); ok && b.Op == token.REM && isFieldLoad(b.Y, "size") {
+					if ad, ok := b.X.(*ssa.BinOp); ok && ad.Op == token.ADD && isFieldLoad(ad.X, "start") {
+						startAdds = append(startAdds, ad.Y)
+						foldedNorm[blk] = true
+					}
 				}
 			}
 			if usedStore == nil {
@@ -119,6 +127,9 @@ func runC26(c *eng.Ctx) {
 				norm := false
 				if b, ok := last.Val.(*ssa.BinOp); ok && b.Op == token.REM && isFieldLoad(b.X, "start") && isFieldLoad(b.Y, "size") {
 					norm = true
+				}
+				if foldedNorm[blk] {
+					norm = true // advanced and reduced in one expression
 				}
 				c.Check("R3", "start-normalised:"+short, last.Pos(), norm, "after advancing, start is reduced modulo size in the same block", eng.Render(last.Val))
 			}
